@@ -424,7 +424,7 @@ class Run:
         info = {'tier': 'thorough', 'budget_s': budget_s, 'adopted': 0}
         t0 = time.time()
         try:
-            pr = subprocess.Popen([sys.executable, check_script, self.prop, '--tier', 'thorough'], env=env, stdout=subprocess.DEVNULL,
+            pr = subprocess.Popen([check_script, self.prop, '--tier', 'thorough'], env=env, stdout=subprocess.DEVNULL,
                                   stderr=subprocess.DEVNULL, start_new_session=True)
             try:
                 info['exit'] = pr.wait(timeout=budget_s + 30)
